@@ -80,17 +80,18 @@ type scen struct {
 	Version   string            `json:"plugin_version,omitempty"`
 	Caps      []string          `json:"caps,omitempty"` // TI, Rev, Other
 	RespErr   bool              `json:"plugin_error"`
-	NilResp   bool              `json:"plugin_nil_response,omitempty"` // the plugin answers (nil, nil): refused like an error (fix 686cc56)
+	SA        bool              `json:"signing_authority_scheme,omitempty"` // signing scheme notary.x509.signingAuthority (trust store type signingAuthority; a failed authentic-timestamp validation = the authentic signing time lies outside the leaf certificate's validity)
+	NilResp   bool              `json:"plugin_nil_response,omitempty"`      // the plugin answers (nil, nil): refused like an error (fix 686cc56)
 	Processed []string          `json:"processed,omitempty"`
 	TI        int               `json:"ti_verdict"` // 0 missing, 1 success, 2 failure, 3 nil entry
 	Rev       int               `json:"rev_verdict"`
-	EmptyOv   bool              `json:"empty_override_map,omitempty"`   // override = empty non-nil map
-	NilVR     bool              `json:"nil_verdict_map,omitempty"`      // plugin answers with a nil verificationResults map
-	EmptyProc bool              `json:"empty_processed,omitempty"`      // processedAttributes = empty non-nil slice
+	EmptyOv   bool              `json:"empty_override_map,omitempty"`     // override = empty non-nil map
+	NilVR     bool              `json:"nil_verdict_map,omitempty"`        // plugin answers with a nil verificationResults map
+	EmptyProc bool              `json:"empty_processed,omitempty"`        // processedAttributes = empty non-nil slice
 	FoldKeys  bool              `json:"verdict_keys_lowercase,omitempty"` // verdicts filed under the lower-cased capability name: not the asked capability
-	HdrLast   bool              `json:"plugin_headers_last,omitempty"`  // plugin headers after the other attributes in the envelope
-	Entry     string            `json:"entry_point,omitempty"`          // "", "oci2" (second OCI statement), "blob" (VerifyBlob, same-named blob statement)
-	Step      string            `json:"history_step,omitempty"`         // position in a history on one verifier instance
+	HdrLast   bool              `json:"plugin_headers_last,omitempty"`    // plugin headers after the other attributes in the envelope
+	Entry     string            `json:"entry_point,omitempty"`            // "", "oci2" (second OCI statement), "blob" (VerifyBlob, same-named blob statement)
+	Step      string            `json:"history_step,omitempty"`           // position in a history on one verifier instance
 	// observation
 	ObsErr     string   `json:"obs_err"`
 	ObsResults []string `json:"obs_results"`
@@ -106,6 +107,7 @@ type envKey struct {
 	expired, chainExpird bool
 	integrity            bool
 	hdrLast              bool
+	sa                   bool
 }
 
 func capCoq(c string) string {
@@ -167,7 +169,7 @@ func run(a *Args) error {
 	// contract-free oracle (acceptance rule, what is performed, what the plugin is asked, truthful results) on ALL inputs
 	prelude := "From NV Require Import Base Regex Generated C02_Levels VerifyCore C02_Model C02_Struct C02_Versions.\nOpen Scope string_scope.\n"
 	w := NewCaseWriter(a, "C02", prelude, "case", "run_all")
-	w.Rule = "scenarios realised on the real verifier.Verify. Family table: every enforcement map reachable from {strict,permissive,audit} x legal overrides (24 maps, a random (level, override) representative each) x every subset of simultaneously failing native validations {trust store authenticity, identity, expiry, certificate time, revocation} (quick) resp. the full product {anchor found, load error, not anchored} x identity x expired x certificate time x revocation {ok, revoked, unknown, validator error} (thorough) x plugin situation {none, not installed, version too low, no verification capability, trusted-identity, revocation, both} x verdicts {success, failure, missing} x critical attributes {none, processed, unprocessed}; the cells that differ only in the map form a group on which monotonicity of acceptance is checked directly. Family random: malformed plugin headers, blank names, missing manager, metadata error, invalid versions, capability orders with foreign capabilities, plugin errors, nil verdict entries, non-critical attributes, integer-labelled critical attributes (COSE), corrupted envelopes, both envelope formats. Family versions: (plugin version, demanded minimum) pairs around SemVer precedence. Family corpus: the fixed defects and the known finding. Family illegal: level/override combinations GetVerificationLevel must refuse. Family duplicates: a verification capability declared several times (outside wf_sc; judged by the contract-free oracle spec_all). Family revshape: validator answers with a result too few / too many / a nil entry (fix d78db00) under enforce, log, skip and with a revocation plugin. Family revchain: the bad / non-revokable revocation status sits on the intermediate or root certificate (the verdict depends on every certificate of the chain). Family nilresp: the plugin answers (nil, nil). Family uspace: plugin name / minimum version made of or containing Unicode white space. non-trivial = at least one failed validation or a plugin header / extended attribute present; distinct = distinct scenario tuples"
+	w.Rule = "scenarios realised on the real verifier.Verify. Family table: every enforcement map reachable from {strict,permissive,audit} x legal overrides (24 maps, a random (level, override) representative each) x every subset of simultaneously failing native validations {trust store authenticity, identity, expiry, certificate time, revocation} (quick) resp. the full product {anchor found, load error, not anchored} x identity x expired x certificate time x revocation {ok, revoked, unknown, validator error} (thorough) x plugin situation {none, not installed, version too low, no verification capability, trusted-identity, revocation, both} x verdicts {success, failure, missing} x critical attributes {none, processed, unprocessed}; the cells that differ only in the map form a group on which monotonicity of acceptance is checked directly. Family random: malformed plugin headers, blank names, missing manager, metadata error, invalid versions, capability orders with foreign capabilities, plugin errors, nil verdict entries, non-critical attributes, integer-labelled critical attributes (COSE), corrupted envelopes, both envelope formats. Family versions: (plugin version, demanded minimum) pairs around SemVer precedence. Family corpus: the fixed defects and the known finding. Family illegal: level/override combinations GetVerificationLevel must refuse. Family duplicates: a verification capability declared several times (outside wf_sc; judged by the contract-free oracle spec_all). Family revshape: validator answers with a result too few / too many / a nil entry (fix d78db00) under enforce, log, skip and with a revocation plugin. Family revchain: the bad / non-revokable revocation status sits on the intermediate or root certificate (the verdict depends on every certificate of the chain). Family pertype: exactly one validation (integrity: tampered envelope; authenticity: untrusted chain; authenticTimestamp: expired chain without countersignature under notary.x509, authentic signing time before the leaf's validity under notary.x509.signingAuthority; expiry: expired signature; revocation: scripted validator), and timestamp + expiry together, fails under each of the 24 reachable enforcement maps and both signing schemes. Family nilresp: the plugin answers (nil, nil). Family uspace: plugin name / minimum version made of or containing Unicode white space. non-trivial = at least one failed validation or a plugin header / extended attribute present; distinct = distinct scenario tuples"
 	w.Assumptions = []string{
 		"plugin metadata lists each verification capability at most once (wf_sc): needed only for the clause 'each result type at most once, in the fixed order'; the acceptance rule, monotonicity, what is performed / asked and the truthfulness of the results are proved and checked without it (families random and duplicates)",
 		"validity and order of the plugin version / demanded minimum are computed inside Coq from the version strings by C20's model of internal/semver.IsValid and x/mod/semver.Compare (C02_Versions.plugin_of, minver_valid_of); family versions holds the pairs around SemVer precedence",
@@ -178,6 +180,10 @@ func run(a *Args) error {
 	good := NewChain("c02 good", 3, now.Add(-96*time.Hour), now.Add(96*time.Hour))
 	old := NewChain("c02 old", 3, now.Add(-96*time.Hour), now.Add(-24*time.Hour))
 	other := NewChain("c02 unrelated", 2, now.Add(-96*time.Hour), now.Add(96*time.Hour))
+	// the chain of `good` with another leaf certificate for the SAME key, valid only from one hour ago: not yet
+	// valid at the signing time (two hours ago) of an envelope signed with `good`
+	lateLeaf := Mint(CertSpec{Subject: good[0].C.Subject, Leaf: true, Key: good[0].Key, NotBefore: now.Add(-1 * time.Hour), NotAfter: now.Add(96 * time.Hour)}, good[1])
+	late := Chain{lateLeaf, good[1], good[2]}
 	desc := ocispec.Descriptor{MediaType: "application/vnd.oci.image.manifest.v1+json", Digest: digest.Digest(strings.TrimPrefix(TestRef, TestScope+"@")), Size: 528}
 	payload := PayloadFor(desc)
 	// caller-owned objects handed to the library by reference; the same objects for every case
@@ -227,7 +233,7 @@ func run(a *Args) error {
 		}
 		chain := good
 		st := now.Add(-2 * time.Hour)
-		if k.chainExpird {
+		if k.chainExpird && !k.sa {
 			chain = old
 			st = now.Add(-48 * time.Hour)
 		}
@@ -235,9 +241,24 @@ func run(a *Args) error {
 		if k.expired {
 			exp = st.Add(30 * time.Minute)
 		}
-		b, err := SignEnvelope(EnvSpec{Format: k.format, Chain: chain, Payload: payload, SigningTime: st, Expiry: exp, ExtAttrs: attrs})
+		spec := EnvSpec{Format: k.format, Chain: chain, Payload: payload, SigningTime: st, Expiry: exp, ExtAttrs: attrs}
+		if k.sa {
+			spec.Scheme = signature.SigningSchemeX509SigningAuthority
+		}
+		b, err := SignEnvelope(spec)
 		if err != nil {
 			panic(fmt.Sprintf("c02: sign %+v: %v", k, err))
+		}
+		if k.sa && k.chainExpird {
+			// signing authority scheme: the authentic signing time precedes the validity of the leaf certificate
+			b = withCerts(k.format, b, late.Certs())
+			content, err := CoreVerify(k.format, b)
+			if err != nil {
+				panic(fmt.Sprintf("c02: envelope with the swapped leaf does not verify: %v", err))
+			}
+			if !content.SignerInfo.CertificateChain[0].Equal(lateLeaf.C) || !st.Before(lateLeaf.C.NotBefore) {
+				panic("c02: the swapped leaf is not in the envelope")
+			}
 		}
 		if !k.integrity {
 			// corrupt the envelope: flip a byte near the end (signature / payload area)
@@ -337,13 +358,13 @@ func run(a *Args) error {
 		mgr      *MockManager
 		v        notation.Verifier
 		err      error
-		multi    bool                      // holds two OCI statements and a same-named blob statement
+		multi    bool // holds two OCI statements and a same-named blob statement
 		blobDoc  *trustpolicy.BlobDocument
 		doc      *trustpolicy.OCIDocument // caller-owned, kept by the verifier by reference
 		config   map[string]string        // plugin config handed to every Verify on this rig
 	}
 	rigKey := func(s *scen) string {
-		return fmt.Sprintf("%s|%v|%v|%v|%v", s.Level, s.Override, s.EmptyOv, s.Identity, s.PM == 0)
+		return fmt.Sprintf("%s|%v|%v|%v|%v|%v", s.Level, s.Override, s.EmptyOv, s.Identity, s.PM == 0, s.SA)
 	}
 	newRig := func(s *scen) *rig {
 		ov := map[trustpolicy.ValidationType]trustpolicy.ValidationAction{}
@@ -357,7 +378,11 @@ func run(a *Args) error {
 		if !s.Identity {
 			identities = []string{"x509.subject: CN=somebody else,O=Verif,ST=WA,C=US"}
 		}
-		doc := OCIPolicy(s.Level, ov, []string{"ca:s"}, identities, "")
+		stores := []string{"ca:s"}
+		if s.SA {
+			stores = []string{"ca:s", "signingAuthority:s"}
+		}
+		doc := OCIPolicy(s.Level, ov, stores, identities, "")
 		r := &rig{key: rigKey(s), store: NewMockStore(), doc: doc, config: sharedConfig}
 		r.script, r.revCalls = NewRevScript(nil, nil)
 		opts := verifier.VerifierOptions{OCITrustPolicy: doc, RevocationCodeSigningValidator: r.script.Validator()}
@@ -433,6 +458,18 @@ func run(a *Args) error {
 			store.Certs[StoreKey{Type: truststore.TypeCA, Name: "s"}] = rootsNone
 		case 3:
 			store.Certs[StoreKey{Type: truststore.TypeCA, Name: "s"}] = rootsOther
+		}
+		if s.SA {
+			// the signing-authority scheme reads the stores of type signingAuthority only; the ca store of the
+			// statement holds an unrelated certificate
+			saKey, caKey := StoreKey{Type: truststore.TypeSigningAuthority, Name: "s"}, StoreKey{Type: truststore.TypeCA, Name: "s"}
+			if store.Fail[caKey] {
+				store.Fail[saKey] = true
+			} else {
+				store.Certs[saKey] = store.Certs[caKey]
+			}
+			delete(store.Fail, caKey)
+			store.Certs[caKey] = rootsOther
 		}
 		nChain := 3
 		var results []*revresult.CertRevocationResult
@@ -530,7 +567,7 @@ func run(a *Args) error {
 		obs := "None"
 		if err == nil {
 			s.ObsBuilt = true
-			env := getEnv(envKey{s.Format, s.Plugin, s.MinVer, fmt.Sprintf("%q", s.OtherCrit), fmt.Sprintf("%q", s.OtherNon), s.NonString, s.Expired, !s.TsOK, s.Integrity, s.HdrLast}, s.OtherCrit, s.OtherNon)
+			env := getEnv(envKey{s.Format, s.Plugin, s.MinVer, fmt.Sprintf("%q", s.OtherCrit), fmt.Sprintf("%q", s.OtherNon), s.NonString, s.Expired, !s.TsOK, s.Integrity, s.HdrLast, s.SA}, s.OtherCrit, s.OtherNon)
 			vopts := notation.VerifierVerifyOptions{ArtifactReference: TestRef, SignatureMediaType: s.Format, PluginConfig: rg.config}
 			snap := func() []string {
 				docJ, _ := json.Marshal(rg.doc)
@@ -1460,6 +1497,33 @@ func run(a *Args) error {
 			s2.NilResp = true
 			s2.OtherCrit = []string{"foo"}
 			exec(s2, nil)
+		}
+	}
+
+	// 14. ONE validation genuinely fails, under every reachable enforcement map and both signing schemes: the
+	// signature is rejected iff the action of THAT validation is enforce; it is reported under that type with
+	// that action; every type at most once (regression "the certificate-validity failure of the signing
+	// authority scheme reported as a second expiry result" was not reachable: no signing-authority envelopes)
+	for _, key := range mapKeys {
+		if key == "refused" {
+			continue
+		}
+		l := byMap[key][0]
+		for _, sa := range []bool{false, true} {
+			for _, fail := range []func(s *scen){
+				noop,
+				func(s *scen) { s.Integrity = false },
+				func(s *scen) { s.Auth = 3 },
+				func(s *scen) { s.TsOK = false },
+				func(s *scen) { s.Expired = true },
+				func(s *scen) { s.RevMode = 1 },
+				func(s *scen) { s.TsOK = false; s.Expired = true },
+			} {
+				s := base("pertype", l)
+				s.SA = sa
+				fail(s)
+				exec(s, nil)
+			}
 		}
 	}
 
